@@ -1350,6 +1350,14 @@ class _Frame:
                 if impl is not None:
                     return impl(*args, **kwargs)
             return self.I.call_function(fn, args, kwargs)
+        if fn is _PY_BUILTINS.get("getattr") and len(args) >= 2 and isinstance(args[0], XObj) and isinstance(args[1], str) and not kwargs:
+            # getattr(obj, "name"[, default]) on a modelled object: properties, descriptors and methods resolve as in obj.name
+            try:
+                return self.obj_attr(args[0], args[1], n)
+            except (Uninterpretable, XRaise):
+                if len(args) > 2:
+                    return args[2]
+                raise
         if fn in (list, tuple, set, sorted, len) and len(args) == 1 and isinstance(args[0], ClassInfo) and args[0].is_enum():
             args = [_enum_iter(args[0])]  # list(EnumClass): its members in definition order
         if isinstance(fn, XObj):
